@@ -20,8 +20,8 @@ ASAN = {"kind": "asan"}
 
 def codec_engines(miri_shards_quick=8, miri_shards_thorough=16, asan_tiers=("quick", "thorough"), miri_tiers=("quick", "thorough")):
     return [
-        eng("native-release", "chk-codec", NATIVE_REL),
-        eng("native-debugassert", "chk-codec", NATIVE_CHK),
+        eng("native-release", "chk-codec", NATIVE_REL, params={"all": {"scale": 8}}),
+        eng("native-debugassert", "chk-codec", NATIVE_CHK, params={"all": {"scale": 4}}),
         eng("asan", "chk-codec", ASAN, tiers=list(asan_tiers), floor_scale=1.0),
         eng("miri", "chk-codec", MIRI, tiers=list(miri_tiers), shards={"quick": miri_shards_quick, "thorough": miri_shards_thorough},
             floor_scale=0.0, timeout={"quick": 1500, "thorough": 3600}),
@@ -29,6 +29,21 @@ def codec_engines(miri_shards_quick=8, miri_shards_thorough=16, asan_tiers=("qui
 
 
 CHECKS = {
+    "C02": {
+        "engines": codec_engines() + [eng("valgrind", "chk-codec", {"kind": "valgrind"}, tiers=["thorough"], threads=4, floor_scale=0.0, params={"thorough": {"triple_stride": 512}}, timeout=3600)],
+        "exhaustive": {"quick": False, "thorough": True},
+        "trusted_base": ["Miri / ASan / valgrind as UB oracles", "reference packet builder in harness/refscion"],
+    },
+    "C03": {
+        "engines": codec_engines(),
+        "exhaustive": {"quick": False, "thorough": False},
+        "trusted_base": ["reference header/UDP/SCMP encoder and RFC1071 checksum in harness/refscion/src/wire.rs"],
+    },
+    "C11": {
+        "engines": codec_engines(),
+        "exhaustive": {"quick": True, "thorough": True},
+        "trusted_base": ["reference MAC chain in harness/refscion/src/mac.rs", "AES-CMAC (RustCrypto)"],
+    },
     "C12": {
         "engines": codec_engines(),
         "exhaustive": {"quick": True, "thorough": True},
@@ -36,8 +51,8 @@ CHECKS = {
     },
     "C15": {
         "engines": [
-            eng("native-release", "chk-codec", NATIVE_REL),
-            eng("native-debugassert", "chk-codec", NATIVE_CHK),
+            eng("native-release", "chk-codec", NATIVE_REL, params={"all": {"scale": 8}}),
+            eng("native-debugassert", "chk-codec", NATIVE_CHK, params={"all": {"scale": 4}}),
         ],
         "exhaustive": {"quick": False, "thorough": False},
         "trusted_base": ["reference text grammars in harness/chk-codec/src/c15.rs", "std IP/integer parsers"],
